@@ -34,10 +34,28 @@ _p("C04", ["shexing", "c20_config"], ["schemas"],
    "Deductive: exception-freedom (None dereference, missing keys, index range, call shapes, list.remove membership) of the node-kind merge under its "
    "representation invariant, which the constructor is proved to establish; call shapes of shex_graph / profile_graph. Totality of the composed pipeline on "
    "adversarial mixes x configurations x formats: bounded (schemas.py).")
-_p("C05", ["c05_tokens", "c18_state"], ["schemas"], "wip")
-_p("C06", ["c06_nt"], ["readers"], "wip")
-_p("C07", ["c07_ttl"], ["readers"], "wip")
-_p("C08", ["c08_channels", "c06_nt"], ["channels"], "wip")
+_p("C05", ["c05_tokens", "c18_state"], ["schemas"],
+   "Deductive: the label built for a class (build_shapes_name_for_class_uri: '<' + shapes namespace + local name + '>', never raises; for slash namespaces the "
+   "local name is exactly the last path segment of the class IRI, so labels are injective on distinct local names; the '#' form is left to the monitor), the choice of the shapes prefix (first free default, proved against a user "
+   "dictionary that already uses some of them), shape kinds only for nodes of the instance dictionary (reference closure at the source), and the output buffer "
+   "(every line emitted is written exactly once, across the 5000-line flush). Grammar, prefix declarations, unique labels and resolvable references of whole "
+   "documents (own ShExC parser / rdflib for SHACL): bounded (schemas.py).")
+_p("C06", ["c06_nt"], ["readers"],
+   "Deductive: the token-boundary helpers of the N-Triples tokenizer (end of an IRI token = its '>', end of an unspaced token = next blank or end of line, "
+   "language tag = '@' right after the closing quote), termination of _look_for_tokens on every line (decreases clause; the hangs found were repaired), "
+   "remove_corners/add_corners inverse, and the raw-string line reader (exactly the non-blank pieces between LINE FEEDs, in order). Literal scanning with escapes "
+   "and the datatype/lang decoding are string code beyond the solvers (replace_all chains): the whole line -> triple function is compared with an independent "
+   "grammar-directed generator and rdflib as referee on an exhaustive alphabet of tricky lines: bounded (readers.py).")
+_p("C07", ["c07_ttl"], ["readers"],
+   "Deductive: _find_next_blank (exclusive end of a token: next blank or END of line), _count_prior_backslashes (maximal run; its parity decides whether a quote "
+   "is escaped), and the subject/predicate/object automaton (_assing_tmp_element_and_promote_state keeps the other two slots, rejects a term in any other state) "
+   "that carries ';' ',' and multi-line statements. Prefix/base expansion of a token is assumed here. Whole documents (3 layouts per statement set, prefix and "
+   "base re-declaration, numeric/boolean shorthands) against rdflib: bounded (readers.py).")
+_p("C08", ["c08_channels", "c06_nt"], ["channels"],
+   "Deductive: the delivery dispatch (_decide_line_reader returns the reader class that matches exactly the one source given and hands it that source unchanged; "
+   "check_just_one_not_none inlined from the real source) and the raw-string reader (same lines as a file with the same text: split at LINE FEED only). Parsers "
+   "themselves are C06/C07; rdflib, gzip/zip/xz and the file system are assumed. Equality of the extracted shapes across all channels for the same abstract "
+   "graph: bounded (channels.py).")
 _p("C09", ["instances", "profiling", "shexing"], ["pipeline"],
    "Deductive: two counting steps commute (lemma over the step contract of pass 2: same counters, same nodes, same class lists in either order); node and "
    "class names are opaque atoms in the verified counting code, so consistent renaming of blank nodes cannot be observed (parametricity of the accepted "
